@@ -1,6 +1,7 @@
 package analysis
 
 import (
+	"errors"
 	"fmt"
 
 	"codeberg.org/TauCeti/mangle-go/ast"
@@ -197,6 +198,13 @@ func (ic *inferContext) inferRelTypesFromPremise(premises []ast.Term, state *inf
 			alternatives, err = bc.getOrInferRelTypes(atom.Predicate, atom.Args, state.asMap(), typeCtx)
 		}
 		if err != nil {
+			var infeasible infeasibleError
+			if errors.As(err, &infeasible) {
+				// No fact of the negated predicate can match what the variables
+				// may hold in this state: the negated premise holds and the
+				// state survives as it is.
+				return []*inferState{state.makeNext()}, nil
+			}
 			return nil, fmt.Errorf("type mismatch %v : %v ", premise, err)
 		}
 		// For negated premise, there is never a variable bound so we never need to add
